@@ -1,3 +1,135 @@
-/- C14 property theorems (not written yet) -/
+/-
+C14 — untrusted paths and filenames cannot escape the trusted directory.
+Property theorems only (helper lemmas live in Lemmas/Paths.lean).
+
+Vocabulary: `segments s` = the components of `s.split("/")` other than `""` and `"."`;
+`initialSlashes s` = normpath's root class of `s` (0 relative, 1 `/`, 2 `//`);
+`Clean c` = `c` is a non-empty component other than `.` and `..` that contains no `/`.
+-/
+import WzVerif.Lemmas.Paths
 namespace Wz.Props.C14
+open Wz Wz.Paths
+
+/-- The Windows device-file branch of `secure_filename` is dead on the platform the model is
+generated for (`os.name != "nt"`), so leaving it out of `secureAscii` loses nothing. -/
+theorem windows_branch_dead : Gen.Paths.osNameNt = false := by decide
+
+/-- Shape of `posixpath.normpath`'s result for every path: its segments are a block of `..`
+followed only by clean components (no `.`, `..`, empty component, or `/` inside a component);
+an absolute path keeps no `..` at all. -/
+theorem normpath_shape (p : Str) :
+    ∃ k rest, segments (normpath p) = List.replicate k dotdot ++ rest ∧
+      (isabs p = true → k = 0) ∧ ∀ c ∈ rest, Clean c := by
+  obtain ⟨k, rest, hs, hk, hr⟩ := normSegs_shape p
+  exact ⟨k, rest, by rw [segments_normpath, hs], fun h => hk ((isabs_iff p).mp h), hr⟩
+
+example : segments (normpath "a/./b//../../../c/".toList) = [dotdot, "c".toList] := by decide
+example : segments (normpath "//a/../../b".toList) = ["b".toList] := by decide
+
+/-- The text `normpath` returns is never empty and is exactly the canonical rendering of its own
+segments under its own root class: no repeated, trailing or stray slashes, `"."` only for the empty
+relative path. -/
+theorem normpath_text (p : Str) :
+    normpath p ≠ [] ∧
+    normpath p = render (initialSlashes (normpath p)) (segments (normpath p)) := by
+  refine ⟨normpath_ne_nil p, ?_⟩
+  by_cases hp : p = []
+  · subst hp; decide
+  · rw [segments_normpath, initialSlashes_normpath, normpath_eq_render hp]
+
+/-- `normpath` is idempotent and preserves the root class (relative, `/`, `//`). -/
+theorem normpath_idempotent (p : Str) :
+    normpath (normpath p) = normpath p ∧ initialSlashes (normpath p) = initialSlashes p :=
+  ⟨normpath_idem p, initialSlashes_normpath p⟩
+
+/-- **Containment.** Whenever `safe_join(directory, *pathnames)` returns a path (for every trusted
+directory - absolute, relative, empty, root -, any number of untrusted components over arbitrary
+characters incl. NUL and backslash, and any list of alternative separators), the normalised result
+has the normalised directory's segments as a prefix, continues only with clean components (so it
+never climbs out through `..`), and keeps the directory's root class. -/
+theorem safe_join_contained (alts : List Char) (d : Str) (ps : List Str) (p : Str)
+    (h : safeJoinWith alts d ps = some p) :
+    ∃ extra, segments (normpath p) = segments (normpath d) ++ extra ∧
+      (∀ c ∈ extra, Clean c) ∧
+      initialSlashes (normpath p) = initialSlashes (normpath d) := by
+  obtain ⟨extra, h1, h2, h3⟩ := safeJoinWith_contained h
+  exact ⟨extra, by rw [segments_normpath, segments_normpath, h1], h2,
+    by rw [initialSlashes_normpath, initialSlashes_normpath, h3]⟩
+
+example : safeJoinWith [] "/srv/root".toList ["a/../b".toList, "".toList, "c".toList]
+    = some "/srv/root/b/c".toList := by decide
+example : safeJoinWith [] "".toList ["x\x00\\..".toList] = some "./x\x00\\..".toList := by decide
+
+/-- The same for this platform's `_os_alt_seps` (regenerated from the source). -/
+theorem safe_join_contained_here (d : Str) (ps : List Str) (p : Str) (h : safeJoin d ps = some p) :
+    (segments (normpath d)) <+: (segments (normpath p)) ∧ dotdot ∉ (segments (normpath p)).drop (segments (normpath d)).length := by
+  obtain ⟨extra, h1, h2, _⟩ := safe_join_contained _ d ps p h
+  refine ⟨⟨extra, h1.symm⟩, ?_⟩
+  rw [h1, List.drop_left]
+  intro hm
+  exact (h2 _ hm).2.2.1 rfl
+
+example : safeJoin "rel".toList ["a".toList, "b/../c".toList] = some "rel/a/c".toList := by decide
+
+/-- Refusals the property text lists: a component that normalises to `..`, starts with `../`, or is
+absolute is refused whatever precedes or follows it. -/
+theorem safe_join_refuses (alts : List Char) (d : Str) (pre post : List Str) (f : Str)
+    (hf : f ≠ []) (hbad : normpath f = dotdot ∨ (['.', '.', '/'] : Str).isPrefixOf (normpath f) = true ∨
+      isabs (normpath f) = true) :
+    safeJoinWith alts d (pre ++ f :: post) = none := by
+  have hc : checkComp alts f = none := by
+    unfold checkComp
+    simp only [hf, if_false]
+    rcases hbad with h | h | h <;> simp [h]
+  have : checkAll alts (pre ++ f :: post) = none := by
+    induction pre with
+    | nil => simp [checkAll, hc]
+    | cons g t ih =>
+      simp only [List.cons_append, checkAll, ih]
+      cases checkComp alts g <;> simp
+  simp [safeJoinWith, this]
+
+example : safeJoinWith [] "/srv".toList ["a".toList, "b/../..".toList] = none := by decide
+
+/-- Sanitised names use only `[A-Za-z0-9_.-]` (so they are ASCII), whatever the input and whatever
+the Unicode normalisation did before. -/
+theorem secure_filename_charset (nfkd : Str → Str) (s : Str) :
+    ∀ c ∈ secureFilename nfkd s, allowed c = true :=
+  secureAscii_allowed _
+
+/-- ... hence contain no path separator (`/`, `\`) and no whitespace (`str.isspace`). -/
+theorem secure_filename_no_sep_ws (nfkd : Str → Str) (s : Str) :
+    ∀ c ∈ secureFilename nfkd s, c ≠ '/' ∧ c ≠ '\\' ∧ isSpace c = false ∧ c.toNat < 128 := by
+  intro c hc
+  have h := secure_filename_charset nfkd s c hc
+  refine ⟨?_, ?_, allowed_not_space h, allowedNat_lt h⟩
+  · rintro rfl; exact absurd h (by decide)
+  · rintro rfl; exact absurd h (by decide)
+
+/-- A sanitised name never starts (or ends) with a dot or underscore. -/
+theorem secure_filename_no_leading_dot (nfkd : Str → Str) (s : Str) :
+    (secureFilename nfkd s).head? ≠ some '.' ∧ (secureFilename nfkd s).head? ≠ some '_' ∧
+    (secureFilename nfkd s).getLast? ≠ some '.' := by
+  refine ⟨?_, ?_, ?_⟩
+  · intro h; exact absurd (head_stripOf h) (by decide)
+  · intro h; exact absurd (head_stripOf h) (by decide)
+  · intro h; exact absurd (last_stripOf h) (by decide)
+
+/-- Sanitising is idempotent, provided the (opaque) NFKD normalisation leaves ASCII text alone. -/
+theorem secure_filename_idempotent (nfkd : Str → Str)
+    (hn : ∀ t : Str, (∀ c ∈ t, c.toNat < 128) → nfkd t = t) (s : Str) :
+    secureFilename nfkd (secureFilename nfkd s) = secureFilename nfkd s := by
+  have hascii : ∀ c ∈ secureFilename nfkd s, c.toNat < 128 :=
+    fun c hc => (secure_filename_no_sep_ws nfkd s c hc).2.2.2
+  have h1 : nfkd (secureFilename nfkd s) = secureFilename nfkd s := hn _ hascii
+  have h2 : asciiIgnore (secureFilename nfkd s) = secureFilename nfkd s := by
+    apply List.filter_eq_self.mpr
+    intro c hc; simpa using hascii c hc
+  show secureAscii (asciiIgnore (nfkd (secureFilename nfkd s))) = secureFilename nfkd s
+  rw [h1, h2]
+  exact secureAscii_idem _
+
+example : ∀ t : Str, (∀ c ∈ t, c.toNat < 128) → id t = t := fun _ _ => rfl
+example : secureFilename id " ../.. /etc/pass wd\t$._".toList = "etc_pass_wd".toList := by decide
+
 end Wz.Props.C14
